@@ -232,6 +232,22 @@ var argCalls = []callDef{
 	{text: `Joins("Company",h%d.Select("name"))`, fam: "arg-join", merge: "JOINS", argf: func(db, arg *gorm.DB) *gorm.DB {
 		return db.Joins("Company", arg.Select("name"))
 	}},
+	// the reusable handle itself as the argument (not a chain derived from it)
+	{text: `Joins("Company",h%d)`, fam: "arg-join-handle", merge: "JOINS", argf: func(db, arg *gorm.DB) *gorm.DB {
+		return db.Joins("Company", arg)
+	}},
+	{text: `InnerJoins("Company",h%d)`, fam: "arg-join-handle", merge: "JOINS", argf: func(db, arg *gorm.DB) *gorm.DB {
+		return db.InnerJoins("Company", arg)
+	}},
+	{text: `Where("id IN (?)",h%d)`, fam: "arg-subquery-handle", merge: "WHERE", argf: func(db, arg *gorm.DB) *gorm.DB {
+		return db.Where("id IN (?)", arg)
+	}},
+	{text: `Table("(?) AS users",h%d)`, fam: "arg-table-handle", merge: "", argf: func(db, arg *gorm.DB) *gorm.DB {
+		return db.Table("(?) AS users", arg)
+	}},
+	{text: `Table("(?) AS users",h%d.Model(&User{}))`, fam: "arg-table", merge: "", argf: func(db, arg *gorm.DB) *gorm.DB {
+		return db.Table("(?) AS users", arg.Model(&User{}))
+	}},
 }
 
 func def(code int) callDef {
@@ -552,6 +568,40 @@ var fins = []finDef{
 	{`Table("toys").Find(&[]map)`, "find", false, false, func(db *gorm.DB) (*gorm.DB, interface{}) {
 		var d []map[string]interface{}
 		return db.Table("toys").Find(&d), &d
+	}},
+	// FindInBatches: several queries from one chain; the callback records what each batch held
+	{`FindInBatches(&[]User,2)`, "batches", false, false, func(db *gorm.DB) (*gorm.DB, interface{}) {
+		var d []User
+		var seen []string
+		tx := db.FindInBatches(&d, 2, func(_ *gorm.DB, batch int) error {
+			for _, u := range d {
+				seen = append(seen, fmt.Sprintf("%d:%d", batch, u.ID))
+			}
+			return batchLimit(batch)
+		})
+		return tx, &seen
+	}},
+	{`FindInBatches(&[]User,4)`, "batches", false, false, func(db *gorm.DB) (*gorm.DB, interface{}) {
+		var d []User
+		var seen []string
+		tx := db.FindInBatches(&d, 4, func(_ *gorm.DB, batch int) error {
+			for _, u := range d {
+				seen = append(seen, fmt.Sprintf("%d:%d", batch, u.ID))
+			}
+			return batchLimit(batch)
+		})
+		return tx, &seen
+	}},
+	{`FindInBatches(&[]Toy,1)`, "batches", false, false, func(db *gorm.DB) (*gorm.DB, interface{}) {
+		var d []Toy
+		var seen []string
+		tx := db.FindInBatches(&d, 1, func(_ *gorm.DB, batch int) error {
+			for _, u := range d {
+				seen = append(seen, fmt.Sprintf("%d:%d", batch, u.ID))
+			}
+			return batchLimit(batch)
+		})
+		return tx, &seen
 	}},
 	// "request" sessions: a ready-to-use session with its own cancellable context is taken
 	// (Initialized: true), used for one query, and its context is cancelled right afterwards;
@@ -1462,7 +1512,7 @@ type argHandle struct {
 
 func drawCall(rt *rapid.T, prefer []string, argHandles []argHandle) int {
 	// now and then a call whose argument is (a chain from) another reusable handle
-	if len(argHandles) > 0 && rapid.IntRange(0, 11).Draw(rt, "argCall") == 0 {
+	if len(argHandles) > 0 && rapid.IntRange(0, 8).Draw(rt, "argCall") == 0 {
 		k := rapid.IntRange(0, len(argCalls)-1).Draw(rt, "argKind")
 		a := rapid.SampledFrom(argHandles).Draw(rt, "argHandle")
 		if a.scopes && strings.HasPrefix(argCalls[k].fam, "arg-group") && harness.OpenClass("C06", "group-arg-scopes") {
@@ -1542,7 +1592,7 @@ func leadingOr(shape []bool) bool {
 
 func namesTable(cs []int) bool {
 	for _, c := range cs {
-		if f := def(c).fam; f == "model" || f == "table" {
+		if f := def(c).fam; f == "model" || f == "table" || strings.HasPrefix(f, "arg-table") {
 			return true
 		}
 	}
@@ -1964,4 +2014,14 @@ func TestC06WitnessGroupArgOr(t *testing.T) {
 	if v := run(hist); v != "" {
 		t.Errorf("C06 violated: %s\n  case: %s", v, hist)
 	}
+}
+
+// batchLimit ends a FindInBatches that does not terminate by itself (conditions
+// that OR the "primary key > last" filter away make gorm fetch the same batch
+// for ever); the error is part of the outcome, alike in the history and alone.
+func batchLimit(batch int) error {
+	if batch >= 12 {
+		return errors.New("harness: FindInBatches stopped after 12 batches")
+	}
+	return nil
 }
